@@ -19,7 +19,8 @@ def Res.ofStr? (s : String) : Option Res :=
   | "httpSession" => some .httpSession
   | "acquired" => some .acquired
   | "rconn" => some .rconn
-  | "sclient" => some .sclient
+  | "ctrl" => some .ctrl
+  | "timing" => some .timing
   | "audio" => some .audio
   | "server" => some .server
   | "playConn" => some .playConn
